@@ -111,7 +111,7 @@ def gen_op(rng, mode, n_objects):
                        "from_epoch", "epoch_of", "epoch_of", "to_local",
                        "parse_zoneless", "strptime_s", "strftime_s",
                        "props_from_epoch", "dto_now", "parser_new",
-                       "dto_new", "dto_s"])
+                       "dto_new", "dto_s", "epoch_chain"])
     if kind == "local_tz":
         return ["local_tz"]
     if kind == "local_tz_fmt":
@@ -140,6 +140,14 @@ def gen_op(rng, mode, n_objects):
         return ["props_from_epoch", n]
     if kind == "epoch_of":
         return ["epoch_of", gen_point_spec(rng, mode)]
+    if kind == "epoch_chain":
+        # the second count is read, the point is moved (by whole years,
+        # months, days; to another zone or representation) and the count of
+        # each derived point is read again
+        spec = gen_point_spec(rng, mode, wide=False)
+        spec.update(rep="cal", form="hms", frac=0)
+        return ["epoch_chain", spec, rng.choice([1, 4, -1, 30, -100]),
+                rng.choice([1, 11, 12, -13]), rng.choice([1, 365, -59])]
     if kind == "strftime_s":
         spec = gen_point_spec(rng, mode, wide=False)
         return ["strftime_s", spec]
@@ -651,6 +659,43 @@ class Sim(object):
             if abs(spec["off"]) >= 1440:
                 self.count("probe.offset_beyond_day")
             return str(got)
+        if kind == "epoch_chain":
+            spec, ky, km, nd = op[1], op[2], op[3], op[4]
+            p, _ = build_point(spec, self.mode, self.shared)
+            t, off = spec["t"], spec["off"]
+            y, m, d, H, M, S = model.civil_from_unix(self.mode, t, off)
+            steps = [("self", p, t)]
+            first = int(p.seconds_since_unix_epoch)
+            if d <= 28:
+                y2 = y + ky
+                steps.append(("years", p + data.Duration(years=ky),
+                              model.unix_from_civil(self.mode, y2, m, d, H,
+                                                    M, S, off)))
+                idx = (y * 12 + (m - 1)) + km
+                steps.append(("months", p + data.Duration(months=km),
+                              model.unix_from_civil(
+                                  self.mode, idx // 12, idx % 12 + 1, d, H,
+                                  M, S, off)))
+                steps.append(("years_back", steps[1][1] - data.Duration(
+                    years=ky), t))
+            steps.append(("days", p + data.Duration(days=nd),
+                          t + 86400 * nd))
+            steps.append(("utc", p.to_utc(), t))
+            steps.append(("week", p.to_week_date(), t))
+            steps.append(("zone", p.to_time_zone(data.TimeZone(
+                hours=5, minutes=30)), t))
+            out = [first]
+            for name, q, want in steps:
+                got = int(q.seconds_since_unix_epoch)
+                got2 = int(q.strftime("%s"))
+                out.append(got)
+                if got != want or got2 != want:
+                    self.violate("epoch_seconds", kind, step_no, got=[got,
+                                                                     got2],
+                                 want=want, derived_by=name, spec=spec,
+                                 point=safe_str(q), mode=self.mode)
+            self.note_n(t)
+            return out
         if kind == "strftime_s":
             spec = op[1]
             p, frac = build_point(spec, self.mode, self.shared)
